@@ -110,6 +110,7 @@ pub fn run(id: &str, tier: Tier) -> i32 {
         ),
         "C19" => crate::c19::run(tier),
         "C15" => crate::c15::run(tier),
+        "C06" => crate::c06::run(tier),
         "C13" => {
             let mut r = Report::new("C13", tier, "exploration");
             r.set("rule", "all lists of <= K tagged lints with spans over positions 0..=P (zero-width, nested, touching, equal) through harper_core::remove_overlaps, plus the real all-rules lint lists of every prefix of every harvested seed sentence; oracle: sub-list, pairwise character-disjoint, every dropped lint starts inside a kept one, one-pass back-to-front fix == reference; non-trivial = at least one lint was removed");
